@@ -106,6 +106,11 @@ class Checker:
         if write and replay is None:
             self._write_evidence(len(viol), kn, und)
         if not self.quiet:
+            import signal
+            try:
+                signal.signal(signal.SIGPIPE, signal.SIG_DFL)
+            except Exception:
+                pass
             n = len(self.obligations)
             d = sum(1 for o in self.obligations if o["status"] == "ok")
             print(f"[{self.pid}] tier={self.tier} obligations={n} discharged={d} "
